@@ -442,24 +442,41 @@ theorem no_stale_after_any_history (N : Nat) (conds : Nat → List Nat) (wf : WF
 
 /-! ### termination: declaration order is a topological order -/
 
-/-- **declaration is topological.**  Whatever Python can construct (`checkDecls`: a keyword can only
-be bound to an object that already exists) has every conditioner declared before its dependent. -/
-theorem declaration_is_topological (decls : List (List Nat)) (h : checkDecls decls = true) :
-    WF (condsOf decls) := by
-  intro f g hg
-  unfold condsOf at hg
-  cases hd : decls[f]? with
-  | none => simp [hd] at hg
-  | some cs =>
-    simp only [hd] at hg
-    have hf : f < decls.length := by
-      rcases List.getElem?_eq_some_iff.mp hd with ⟨hlt, _⟩
-      exact hlt
-    unfold checkDecls at h
-    rw [List.all_eq_true] at h
-    have := h f (List.mem_range.mpr hf)
-    simp only [hd, List.all_eq_true, decide_eq_true_eq] at this
-    exact this g hg
+/-- **`checkDecls` is the Boolean form of `WF`** (definitional restatement, both directions).
+That Python can only construct declarations with `checkDecls = true` (a keyword can only be bound to
+an object that already exists) is an ASSUMPTION about Python, not a theorem: the driver refuses
+other declarations (`ERR badDecl`) and the harness never produces one.  So "declaration order is a
+dependency order" is assumed; this lemma only says that the driver's test is exactly the hypothesis
+`WF` of the theorems (for declared objects; undeclared ones have no conditioners). -/
+theorem checkDecls_iff_WF (decls : List (List Nat)) :
+    checkDecls decls = true ↔ WF (condsOf decls) := by
+  constructor
+  · intro h f g hg
+    unfold condsOf at hg
+    cases hd : decls[f]? with
+    | none => simp [hd] at hg
+    | some cs =>
+      simp only [hd] at hg
+      have hf : f < decls.length := by
+        rcases List.getElem?_eq_some_iff.mp hd with ⟨hlt, _⟩
+        exact hlt
+      unfold checkDecls at h
+      rw [List.all_eq_true] at h
+      have := h f (List.mem_range.mpr hf)
+      simp only [hd, List.all_eq_true, decide_eq_true_eq] at this
+      exact this g hg
+  · intro wf
+    unfold checkDecls
+    rw [List.all_eq_true]
+    intro i hi
+    have hi' : i < decls.length := List.mem_range.mp hi
+    have hd : decls[i]? = some decls[i] := List.getElem?_eq_getElem hi'
+    simp only [hd, List.all_eq_true, decide_eq_true_eq]
+    intro g hg
+    apply wf i g
+    unfold condsOf
+    simp only [hd]
+    exact hg
 
 theorem callback_congr (conds : Nat → List Nat) (r₁ r₂ : Nat → Nat → Mut → Mut) (f : Nat) (s : Mut)
     (h : Nat) (hr : ∀ e t, r₁ h e t = r₂ h e t) :
@@ -1367,6 +1384,275 @@ theorem round_complete_fits_in_round (N : Nat) (conds : Nat → List Nat) (wf : 
   rw [List.take_append_of_le_length hle', hfn, hdata] at h3
   exact hfresh _ (List.mem_of_mem_take (latestCall_mem _ h r h3)) rfl
 
+/-! ### results: what the functions END UP WITH, and order independence
+
+The numerical `_fit` is an event in the model.  What it returns is, in the code, a deterministic
+function of its inputs: the function fitted, the pairs (data epoch), the start values (token) and
+the parameters the conditioners have *at that moment*.  `results` replays the detailed event log
+with an ARBITRARY such function `fitRes` over an arbitrary result type `R`; it is exactly the field
+one would add to `Mut` and update in `bump` (`results_bump`, by `rfl`), so nothing about the
+driver's state machine changes.  `canon` is the dependency-order fit of data epoch `r` (every
+function fitted once, after its conditioners, from the initial values); `canon_spec` /
+`canon_unique` show it is the only solution of `c h = fitRes h r 0 ((conds h).map c)`. -/
+
+section Results
+variable {R : Type}
+
+/-- the parameters every function has after the `_fit` events of a log (newest first): a `_fit` of
+`f` replaces `f`'s parameters by `fitRes f data p0 (current parameters of conds f)` -/
+def results (conds : Nat → List Nat) (fitRes : Nat → Nat → Nat → List R → R) (init0 : Nat → R) :
+    List Ev → Nat → R
+  | [] => init0
+  | ev :: rest =>
+    upd (results conds fitRes init0 rest) ev.fn
+      (fitRes ev.fn ev.data ev.p0 ((conds ev.fn).map (results conds fitRes init0 rest)))
+
+/-- `results` is the ghost field "current parameters" updated by `bump`: the `_fit` of `f` on pairs
+of epoch `e` stores `fitRes f e (start token) (parameters of the conditioners now)`. -/
+theorem results_bump (conds : Nat → List Nat) (fitRes : Nat → Nat → Nat → List R → R)
+    (init0 : Nat → R) (s : Mut) (f e : Nat) :
+    results conds fitRes init0 (bump s f e).evlog =
+      upd (results conds fitRes init0 s.evlog) f
+        (fitRes f e (p0Token s f) ((conds f).map (results conds fitRes init0 s.evlog))) := rfl
+
+/-- dependency-order fit of data epoch `r`: function `n` is fitted once, from the initial values
+(token 0), after all functions `< n` -/
+def canon (conds : Nat → List Nat) (fitRes : Nat → Nat → Nat → List R → R) (init0 : Nat → R)
+    (r : Nat) : Nat → Nat → R
+  | 0 => init0
+  | n + 1 =>
+    upd (canon conds fitRes init0 r n) n
+      (fitRes n r 0 ((conds n).map (canon conds fitRes init0 r n)))
+
+theorem canon_stable (conds : Nat → List Nat) (fitRes : Nat → Nat → Nat → List R → R)
+    (init0 : Nat → R) (r h : Nat) :
+    ∀ n, h < n → canon conds fitRes init0 r n h = canon conds fitRes init0 r (h + 1) h := by
+  intro n
+  induction n with
+  | zero => intro hn; omega
+  | succ n ih =>
+    intro hn
+    by_cases hh : h = n
+    · subst hh; rfl
+    · have : canon conds fitRes init0 r (n + 1) h = canon conds fitRes init0 r n h :=
+        upd_other _ _ _ _ hh
+      rw [this]; exact ih (by omega)
+
+/-- **`canon` is the dependency-order fit**: every function's parameters are the result of fitting
+it to the epoch-`r` pairs, from the initial values, given the `canon` parameters of its
+conditioners. -/
+theorem canon_spec (conds : Nat → List Nat) (wf : WF conds)
+    (fitRes : Nat → Nat → Nat → List R → R) (init0 : Nat → R) (r N h : Nat) (hh : h < N) :
+    canon conds fitRes init0 r N h =
+      fitRes h r 0 ((conds h).map (canon conds fitRes init0 r N)) := by
+  rw [canon_stable conds fitRes init0 r h N hh]
+  have h1 : canon conds fitRes init0 r (h + 1) h =
+      fitRes h r 0 ((conds h).map (canon conds fitRes init0 r h)) := upd_same _ _ _
+  rw [h1]
+  congr 1
+  apply List.map_congr_left
+  intro g hg
+  have hgh : g < h := wf h g hg
+  rw [canon_stable conds fitRes init0 r g h hgh, canon_stable conds fitRes init0 r g N (by omega)]
+
+/-- the fixed-point equation has only one solution below `N`: `canon` does not depend on how the
+dependency order is linearised -/
+theorem canon_unique (conds : Nat → List Nat) (wf : WF conds)
+    (fitRes : Nat → Nat → Nat → List R → R) (init0 : Nat → R) (r N : Nat) (c : Nat → R)
+    (hc : ∀ h, h < N → c h = fitRes h r 0 ((conds h).map c)) :
+    ∀ h, h < N → c h = canon conds fitRes init0 r N h := by
+  intro h
+  induction h using Nat.strong_induction_on with
+  | _ h ih =>
+    intro hh
+    rw [hc h hh, canon_spec conds wf fitRes init0 r N h hh]
+    congr 1
+    apply List.map_congr_left
+    intro g hg
+    have hgh : g < h := wf h g hg
+    exact ih g hgh (by omega)
+
+/-- `seen` never runs ahead of `version` -/
+def SeenLe (s : Mut) : Prop := ∀ h g, s.seen h g ≤ s.version g
+
+/-- a function whose last `_fit` saw the current version of all its conditioners has the parameters
+obtained by fitting it to the pairs of that `_fit`, from the initial values, given the CURRENT
+parameters of its conditioners -/
+def ResOK (conds : Nat → List Nat) (fitRes : Nat → Nat → Nat → List R → R) (init0 : Nat → R)
+    (s : Mut) : Prop :=
+  ∀ h e, s.lastData h = some e → (∀ g ∈ conds h, s.seen h g = s.version g) →
+    results conds fitRes init0 s.evlog h =
+      fitRes h e 0 ((conds h).map (results conds fitRes init0 s.evlog))
+
+def ResInv (conds : Nat → List Nat) (fitRes : Nat → Nat → Nat → List R → R) (init0 : Nat → R)
+    (s : Mut) : Prop :=
+  EvInv s ∧ SeenLe s ∧ ResOK conds fitRes init0 s
+
+theorem seenLe_bump (s : Mut) (f e : Nat) (h : SeenLe s) : SeenLe (bump s f e) := by
+  intro k g
+  have hv : s.version g ≤ (bump s f e).version g := (mono_bump s f e).ver g
+  by_cases hk : k = f
+  · subst hk
+    have : (bump s k e).seen k g = s.version g := by
+      show upd s.seen k (fun g => s.version g) k g = s.version g
+      rw [upd_same]
+    rw [this]; exact hv
+  · have : (bump s f e).seen k g = s.seen k g := by
+      show upd s.seen f (fun g => s.version g) k g = s.seen k g
+      rw [upd_other _ _ _ _ hk]
+    rw [this]; exact Nat.le_trans (h k g) hv
+
+theorem map_upd_of_not_mem (c : Nat → R) (f : Nat) (v : R) (l : List Nat) (hf : f ∉ l) :
+    l.map (upd c f v) = l.map c := by
+  apply List.map_congr_left
+  intro g hg
+  exact upd_other _ _ _ _ (fun e => hf (e ▸ hg))
+
+theorem resOK_bump (conds : Nat → List Nat) (wf : WF conds)
+    (fitRes : Nat → Nat → Nat → List R → R) (init0 : Nat → R) (s : Mut) (f e : Nat)
+    (hev : EvInv s) (hle : SeenLe s) (hres : ResOK conds fitRes init0 s) :
+    ResOK conds fitRes init0 (bump s f e) := by
+  intro h e' hl hseen
+  rw [results_bump, p0Token_zero hev f]
+  have hl' : upd s.lastData f (some e) h = some e' := hl
+  by_cases hk : h = f
+  · subst hk
+    rw [upd_same] at hl'
+    have he : e = e' := Option.some.inj hl'
+    subst he
+    have hself : h ∉ conds h := fun hm => Nat.lt_irrefl _ (wf h h hm)
+    rw [upd_same, map_upd_of_not_mem _ _ _ _ hself]
+  · rw [upd_other _ _ _ _ hk] at hl'
+    have hfc : f ∉ conds h := by
+      intro hm
+      have h1 : (bump s f e).seen h f = (bump s f e).version f := hseen f hm
+      have h2 : (bump s f e).seen h f = s.seen h f := by
+        show upd s.seen f (fun g => s.version g) h f = s.seen h f
+        rw [upd_other _ _ _ _ hk]
+      have h3 : (bump s f e).version f = s.version f + 1 := upd_same _ _ _
+      have h4 := hle h f
+      omega
+    have hold : ∀ g ∈ conds h, s.seen h g = s.version g := by
+      intro g hg
+      have hgf : g ≠ f := fun e' => hfc (e' ▸ hg)
+      have h1 : (bump s f e).seen h g = (bump s f e).version g := hseen g hg
+      have h2 : (bump s f e).seen h g = s.seen h g := by
+        show upd s.seen f (fun g => s.version g) h g = s.seen h g
+        rw [upd_other _ _ _ _ hk]
+      have h3 : (bump s f e).version g = s.version g := upd_other _ _ _ _ hgf
+      rw [← h2, ← h3]; exact h1
+    rw [upd_other _ _ _ _ hk, map_upd_of_not_mem _ _ _ _ hfc]
+    exact hres h e' hl' hold
+
+theorem resInv_bump (conds : Nat → List Nat) (wf : WF conds)
+    (fitRes : Nat → Nat → Nat → List R → R) (init0 : Nat → R) (s : Mut) (f e : Nat)
+    (h : ResInv conds fitRes init0 s) : ResInv conds fitRes init0 (bump s f e) :=
+  ⟨evInv_bump s f e h.1, seenLe_bump s f e h.2.1, resOK_bump conds wf fitRes init0 s f e h.1 h.2.1 h.2.2⟩
+
+theorem resInv_of_eq (conds : Nat → List Nat) (fitRes : Nat → Nat → Nat → List R → R)
+    (init0 : Nat → R) {s t : Mut} (hv : t.version = s.version) (hs : t.seen = s.seen)
+    (hl : t.log = s.log) (hd : t.lastData = s.lastData) (hp : t.p0At = s.p0At)
+    (he : t.evlog = s.evlog) (h : ResInv conds fitRes init0 s) : ResInv conds fitRes init0 t := by
+  obtain ⟨a, b, c⟩ := h
+  refine ⟨evInv_of_eq hv hl hd hp he a, ?_, ?_⟩
+  · unfold SeenLe; rw [hv, hs]; exact b
+  · unfold ResOK; rw [hv, hs, hd, he]; exact c
+
+theorem fitCall_resInv (N : Nat) (conds : Nat → List Nat) (wf : WF conds)
+    (fitRes : Nat → Nat → Nat → List R → R) (init0 : Nat → R) (f e : Nat) (s : Mut)
+    (h : ResInv conds fitRes init0 s) : ResInv conds fitRes init0 (fitCall N conds f e s) := by
+  rw [fitCall_eq]
+  have h1 : ResInv conds fitRes init0 (store s f e) :=
+    resInv_of_eq conds fitRes init0 (s := s) rfl rfl rfl rfl rfl rfl h
+  have key := doFit_preserves N conds (ResInv conds fitRes init0)
+    (fun s f e _ _ h => resInv_bump conds wf fitRes init0 s f e h)
+    (fun s _ _ h => resInv_of_eq conds fitRes init0 (s := s) rfl rfl rfl rfl rfl rfl h)
+    (fun s _ _ h => resInv_of_eq conds fitRes init0 (s := s) rfl rfl rfl rfl rfl rfl h)
+  split
+  · rename_i hm
+    exact key.1 N f e _ (upd_same _ _ _) hm h1
+  · exact h1
+
+theorem runHistory_resInv (N : Nat) (conds : Nat → List Nat) (wf : WF conds)
+    (fitRes : Nat → Nat → Nat → List R → R) (init0 : Nat → R) (ops : List (Nat × Nat)) :
+    ResInv conds fitRes init0 (runHistory N conds ops) :=
+  runHistory_induct N conds (ResInv conds fitRes init0)
+    ⟨init_evInv conds, fun _ _ => Nat.le_refl _, fun h e hl => by simp [init] at hl⟩ ops
+    (fun _ => True) (fun _ _ => trivial)
+    (fun s p _ hs => fitCall_resInv N conds wf fitRes init0 p.1 p.2 s hs)
+
+/-- **after ANY history** (no completeness assumption): every fitted function has exactly the
+parameters obtained by fitting it to its stored pairs (= the pairs of the latest public call on
+it), from the initial values, given the parameters its conditioners have NOW. -/
+theorem results_consistent_after_any_history (N : Nat) (conds : Nat → List Nat) (wf : WF conds)
+    (fitRes : Nat → Nat → Nat → List R → R) (init0 : Nat → R)
+    (ops : List (Nat × Nat)) (hops : ∀ p ∈ ops, p.1 < N) :
+    let s := runHistory N conds ops
+    ∀ h, h < N → 0 < s.version h → ∃ e, latestCall ops h = some e ∧
+      results conds fitRes init0 s.evlog h =
+        fitRes h e 0 ((conds h).map (results conds fitRes init0 s.evlog)) := by
+  intro s h hh hv
+  obtain ⟨e, h1, _, h3⟩ := last_fit_data_is_stored N conds ops hops h hv
+  refine ⟨e, h3, ?_⟩
+  exact (runHistory_resInv N conds wf fitRes init0 ops).2.2 h e h1
+    (fun g hg => no_stale_after_any_history N conds wf ops hops h g hh hv hg)
+
+/-- **the result of a complete round is the dependency-order fit.**  Well-formed declaration; any
+earlier history `pre`; then a round in which every function receives a public `fit` call with pairs
+of epoch `r`, in ANY order (also repeated calls).  Then every function ends up with exactly the
+parameters of the dependency-order fit of the epoch-`r` pairs (`canon`), whatever `fitRes` is. -/
+theorem results_after_complete_round (N : Nat) (conds : Nat → List Nat) (wf : WF conds)
+    (fitRes : Nat → Nat → Nat → List R → R) (init0 : Nat → R)
+    (pre rnd : List (Nat × Nat)) (r : Nat) (hpre : ∀ p ∈ pre, p.1 < N)
+    (hrnd : ∀ p ∈ rnd, p.1 < N ∧ p.2 = r) (hall : ∀ f, f < N → (f, r) ∈ rnd) :
+    ∀ h, h < N →
+      results conds fitRes init0 (runHistory N conds (pre ++ rnd)).evlog h =
+        canon conds fitRes init0 r N h := by
+  have hcur := round_complete_all_current N conds wf pre rnd r hpre hrnd hall
+  have hres := (runHistory_resInv N conds wf fitRes init0 (pre ++ rnd)).2.2
+  apply canon_unique conds wf fitRes init0 r N
+  intro h hh
+  obtain ⟨_, _, hld, _, hc⟩ := hcur h hh
+  exact hres h r hld (fun g hg => (hc g hg).2.1)
+
+/-- **order independence.**  Two histories on the same declaration, each ending with a complete
+round of the same data (epoch `r`) — in different orders, with different multiplicities, after
+different earlier histories (first fit vs. re-fit) — leave every function with the same parameters. -/
+theorem fit_order_independent (N : Nat) (conds : Nat → List Nat) (wf : WF conds)
+    (fitRes : Nat → Nat → Nat → List R → R) (init0 : Nat → R)
+    (pre₁ rnd₁ pre₂ rnd₂ : List (Nat × Nat)) (r : Nat)
+    (hpre₁ : ∀ p ∈ pre₁, p.1 < N) (hrnd₁ : ∀ p ∈ rnd₁, p.1 < N ∧ p.2 = r)
+    (hall₁ : ∀ f, f < N → (f, r) ∈ rnd₁)
+    (hpre₂ : ∀ p ∈ pre₂, p.1 < N) (hrnd₂ : ∀ p ∈ rnd₂, p.1 < N ∧ p.2 = r)
+    (hall₂ : ∀ f, f < N → (f, r) ∈ rnd₂) :
+    ∀ h, h < N →
+      results conds fitRes init0 (runHistory N conds (pre₁ ++ rnd₁)).evlog h =
+        results conds fitRes init0 (runHistory N conds (pre₂ ++ rnd₂)).evlog h := by
+  intro h hh
+  rw [results_after_complete_round N conds wf fitRes init0 pre₁ rnd₁ r hpre₁ hrnd₁ hall₁ h hh,
+    results_after_complete_round N conds wf fitRes init0 pre₂ rnd₂ r hpre₂ hrnd₂ hall₂ h hh]
+
+/-- special case: the first fit of a model, with the parameters dict in two different orders -/
+theorem first_fit_order_independent (N : Nat) (conds : Nat → List Nat) (wf : WF conds)
+    (fitRes : Nat → Nat → Nat → List R → R) (init0 : Nat → R) (o₁ o₂ : List Nat) (r : Nat)
+    (h₁ : ∀ f, f ∈ o₁ ↔ f < N) (h₂ : ∀ f, f ∈ o₂ ↔ f < N) :
+    ∀ h, h < N →
+      results conds fitRes init0 (runHistory N conds (round o₁ r)).evlog h =
+        results conds fitRes init0 (runHistory N conds (round o₂ r)).evlog h := by
+  have hr : ∀ o : List Nat, (∀ f, f ∈ o ↔ f < N) →
+      (∀ p ∈ round o r, p.1 < N ∧ p.2 = r) ∧ (∀ f, f < N → (f, r) ∈ round o r) := by
+    intro o ho
+    constructor
+    · intro p hp
+      obtain ⟨f, hf, rfl⟩ := List.mem_map.mp hp
+      exact ⟨(ho f).mp hf, rfl⟩
+    · intro f hf
+      exact List.mem_map.mpr ⟨f, (ho f).mpr hf, rfl⟩
+  have := fit_order_independent N conds wf fitRes init0 [] (round o₁ r) [] (round o₂ r) r
+    (by simp) (hr o₁ h₁).1 (hr o₁ h₁).2 (by simp) (hr o₂ h₂).1 (hr o₂ h₂).2
+  simpa using this
+end Results
+
 /-! ### witnesses / non-vacuity -/
 
 /-- the join `{0, 1} → 2` -/
@@ -1445,6 +1731,21 @@ example :
 example : (runHistory 4 diamond (round [3, 1, 2, 0] 0 ++ [(2, 1)])).lastData 1 = some 0 ∧
     (runHistory 4 diamond (round [3, 1, 2, 0] 0 ++ [(2, 1)])).lastData 2 = some 1 ∧
     (runHistory 4 diamond (round [3, 1, 2, 0] 0 ++ [(2, 1)])).lastData 3 = some 0 := by decide
+-- non-vacuity of `results_after_complete_round` / `fit_order_independent`: a toy `fitRes` on `Nat`
+-- that depends on every one of its inputs; diamond; first fit in one order vs. re-fit (after a
+-- round on other pairs and a partial round) in another order give the dependency-order fit of
+-- epoch 5; a partial re-fit does not; `canon` differs from the initial values.
+def toyFit (f e p0 : Nat) (args : List Nat) : Nat := 1 + f + 10 * e + 1000 * p0 + 3 * args.sum
+example :
+    (List.range 4).map (results diamond toyFit (fun _ => 0)
+      (runHistory 4 diamond (round [3, 1, 2, 0] 5)).evlog) = [51, 205, 206, 1287] ∧
+    (List.range 4).map (results diamond toyFit (fun _ => 0)
+      (runHistory 4 diamond (round [0, 2, 1, 3] 0 ++ [(2, 1)] ++ round [2, 3, 0, 1, 0] 5)).evlog)
+      = [51, 205, 206, 1287] ∧
+    (List.range 4).map (canon diamond toyFit (fun _ => 0) 5 4) = [51, 205, 206, 1287] ∧
+    (List.range 4).map (results diamond toyFit (fun _ => 0)
+      (runHistory 4 diamond (round [0, 2, 1, 3] 0 ++ [(2, 5)])).evlog) ≠ [51, 205, 206, 1287] := by
+  decide
 example : latestCall [(1, 0), (0, 0), (1, 1)] 1 = some 1 ∧ latestCall [(1, 0), (0, 0), (1, 1)] 0 = some 0 ∧
     latestCall [(1, 0), (0, 0), (1, 1)] 2 = none := by decide
 
